@@ -376,6 +376,33 @@ def run(tier):
             if not safe:
                 ck.finding("R2.narrow-arith", "R2.narrow-arith/%s#%d" % (ident, k), F.short_span(sp),
                            "`%s`: %s on %s register/count values can overflow (panic in debug, wrap in release)" % (f.parent, b, a))
+    # ---------------- R3 sentinel values of narrow index types are never allocated
+    ck.rule("R3.sentinel", "a narrow index value that code compares against as a 'none' sentinel (u16::MAX) is never handed out by the allocator", floor=1)
+    sentinel_users = []
+    for f in fx.fns.values():
+        if f.derived:
+            continue
+        for bl in f.blocks:
+            for s in bl["s"]:
+                if s[0] == "a" and s[2][0] == "bin" and s[2][1] in ("Eq", "Ne") and fx.tys(s[2][4]) == "u16":
+                    if const_bound(fx, f, s[2][3]) == 65535 or const_bound(fx, f, s[2][2]) == 65535:
+                        sentinel_users.append((f.parent, s[3]))
+    ac = fx.fns.get("compiler::builder::BytecodeBuilder::add_constant")
+    if ck.anchor(ac is not None, "BytecodeBuilder::add_constant") and sentinel_users:
+        pushes = [bi for bi, t in ac.calls() if t[1].get("d", "").endswith("Vec::<T, A>::push")]
+        guards = guards_for(fx, ac)
+        lens = [t for bi, t in ac.calls() if t[1].get("d", "").endswith("::len") and not t[3][1]]
+        ok = False
+        for bi in pushes:
+            for t in lens:
+                if guarded(fx, ac, bi, root_of(ac, t[3][0]), 65534, guards):
+                    ok = True
+        ck.instance("R3.sentinel", "add_constant never returns 65535 (used as sentinel by %s)" % ", ".join(sorted({u.split("::")[-1] for u, _ in sentinel_users})), F.short_span(ac.span), ok=ok)
+        if not ok:
+            ck.finding("R3.sentinel", "R3.sentinel/add_constant", F.short_span(ac.span),
+                       "add_constant can hand out constant index 65535, which %s compare(s) against as the 'no name' sentinel (u16::MAX): a construct whose name lands on that index silently changes meaning"
+                       % ", ".join(sorted({u for u, _ in sentinel_users})))
+    ck.note("u16 sentinel comparisons found in: %s" % sorted({u for u, _ in sentinel_users}))
     ck.assume("a bytecode chunk has fewer than 2^32 instructions (usize -> u32 jump offsets)")
     # positive control: guard recognizer on the fixture
     ctl = F.load_fixture()
